@@ -778,6 +778,13 @@ def rule_record_times(ctx, facts, rule):
                   "%d anchors" % len(an), extra="one-anchor")
 
 
+def _only_now(origins):
+    """The stamp is Instant::now() on every path: no other value (a constant such as Instant::ZERO, a field, a
+    parameter) can reach the operand."""
+    origins = list(origins)
+    return bool(origins) and all(x.kind == "call" and str(x.key).endswith("Instant::now") for x in origins)
+
+
 def rule_stamps(ctx, facts, rule):
     prov = Prov(facts)
     fn = ctx.need_fn(facts, "<fastrace::span::Span as core::ops::drop::Drop>::drop", rule)
@@ -785,7 +792,7 @@ def rule_stamps(ctx, facts, rule):
         ew = fn.calls_re(r"RawSpan::end_with$", cleanup=False)
         sub = sites_star(facts, fn, lambda g, t: callee_is(t, r"GlobalCollect::submit_spans$"))
         ok = bool(ew) and bool(sub) and all(any(fn.dominates(e, s) and e != s for e in ew) for s in sub)
-        now = ok and all(any(x.kind == "call" and str(x.key).endswith("Instant::now") for x in prov.of_operand(fn, fn.term(e)["args"][1])) for e in ew)
+        now = ok and all(_only_now(prov.of_operand(fn, fn.term(e)["args"][1])) for e in ew)
         ctx.check(ok and now, rule, fn.path, fn.span, "Span::drop stamps end_instant with Instant::now() before it submits the span", "",
                   "end_with dominates submit: %s; argument is Instant::now(): %s" % (ok, now), extra="span-end")
     SQ = "fastrace::local::span_queue::SpanQueue::"
@@ -795,7 +802,7 @@ def rule_stamps(ctx, facts, rule):
         ok = bool(ew)
         for e in ew:
             t = fn.term(e)
-            ok = ok and any(x.kind == "call" and str(x.key).endswith("Instant::now") for x in prov.of_operand(fn, t["args"][1]))
+            ok = ok and _only_now(prov.of_operand(fn, t["args"][1]))
             ok = ok and has_origin(prov.of_operand(fn, t["args"][0]), kind="param", key=1, path_suffix=(".span_queue",))
         ctx.check(ok, rule, fn.path, fn.span, "finish_span stamps the indexed span's end_instant with Instant::now()", "", "end_with shape differs", extra="local-end")
     for name in ("start_span", "add_event"):
@@ -803,12 +810,12 @@ def rule_stamps(ctx, facts, rule):
         if fn is None:
             continue
         bw = fn.calls_re(r"RawSpan::begin_with$", cleanup=False)
-        ok = bool(bw) and all(any(x.kind == "call" and str(x.key).endswith("Instant::now") for x in prov.of_operand(fn, fn.term(b)["args"][2])) for b in bw)
+        ok = bool(bw) and all(_only_now(prov.of_operand(fn, fn.term(b)["args"][2])) for b in bw)
         ctx.check(ok, rule, fn.path, fn.span, "SpanQueue::%s stamps begin_instant with Instant::now()" % name, "", "begin argument is not Instant::now()", extra="begin-" + name)
     fn = ctx.need_fn(facts, "fastrace::span::Span::new", rule)
     if fn is not None:
         bw = fn.calls_re(r"RawSpan::begin_with$", cleanup=False)
-        ok = bool(bw) and all(any(x.kind == "call" and str(x.key).endswith("Instant::now") for x in prov.of_operand(fn, fn.term(b)["args"][2])) for b in bw)
+        ok = bool(bw) and all(_only_now(prov.of_operand(fn, fn.term(b)["args"][2])) for b in bw)
         ctx.check(ok, rule, fn.path, fn.span, "Span::new stamps begin_instant with Instant::now()", "", "begin argument is not Instant::now()", extra="begin-span")
 
 
@@ -1134,3 +1141,45 @@ def rule_danglings_key_unique(ctx, facts, rule):
               "span carry the same id, the first copy mounted takes every attachment (twice), the second gets none -- "
               "let m = Span::enter_with_parents(\"m\", [&root, &child_of_root]); m.add_property(..); m.add_event(..)" % key,
               extra="danglings-key")
+
+
+def rule_mount_scope(ctx, facts, rule):
+    """Attachments parked for one collection are mounted only on the records that collection has just produced: the slice
+    handed to mount_danglings starts at the batch's length taken before the collection's records were appended (or is a
+    fresh container). Span ids are unique per trace only: a set pushed to N parents yields N copies with the same ids in N
+    traces, and a look-up over the whole batch hands the first copy the attachments of all the others."""
+    prov = Prov(facts)
+    fn = ctx.need_fn(facts, "fastrace::collector::global_collector::postprocess_span_collection", rule)
+    if fn is None:
+        return
+    mounts = fn.calls_re(r"global_collector::mount_danglings$", cleanup=False)
+    if not mounts:
+        ctx.fail(rule, fn.path, fn.span, "postprocess_span_collection mounts parked attachments", "anchor lost: no mount_danglings call", extra="mount-scope")
+        return
+    producers = [b for b in fn.calls_re(r"global_collector::amend_(local_)?span$", cleanup=False)]
+    for m in mounts:
+        t = fn.term(m)
+        src = prov.of_operand(fn, t["args"][0])
+        batch = [o for o in src if o.kind == "param"]
+        if not batch:
+            ctx.ok(rule, fn.path, fn.loc(m), "attachments are mounted on this collection's records only", "mounted on a container local to the call",
+                   extra="mount-scope")
+            continue
+        ok = False
+        detail = "the whole batch is handed to mount_danglings"
+        for o in batch:
+            for v in o.via:
+                if v[0] == "call" and re.search(r"IndexMut<I>>::index_mut$|<impl \[T\]>::(get_mut|split_at_mut)$|Vec::<T, A>::(split_at_mut|get_mut)$", v[1]):
+                    it = fn.term(v[2])
+                    rng = prov.of_operand(fn, it["args"][1]) if len(it["args"]) > 1 else []
+                    lens = [w[2] for r in rng for w in r.via if w[0] == "call" and re.search(r"Vec::<T, A>::len$", w[1])]
+                    lens += [r.via[-1][2] for r in rng if r.kind == "call" and str(r.key).endswith("::len") and r.via]
+                    if lens and all(all(fn.dominates(l, pb) for pb in producers) for l in lens) and producers:
+                        ok = True
+                    else:
+                        detail = "slice start origins %s; producers %s" % (origin_strs(rng), producers)
+        ctx.check(ok, rule, fn.path, fn.loc(m), "attachments are mounted on this collection's records only (the slice starts at the batch length "
+                  "taken before the collection's records were appended)", "start = len() taken before %d producer calls" % len(producers),
+                  detail + ": a record of another trace that carries the same span id (copies of one local-span set pushed to several "
+                  "parents) receives this collection's events / properties", extra="mount-scope")
+
